@@ -3,7 +3,11 @@
 #include "cqv.h"
 #include "delta_spec.h"
 #include <stdlib.h>
+int64_t cqv_dummy;   /* ghost object, see contracts/delta.ovl */
+size_t cqv_k;          /* ghost index: arbitrary */
 #include "src/encoding/delta.c"
+#include "src/encoding/delta_length.c"
+#include "src/encoding/delta_strings.c"
 
 /* arbitrary input object with an arbitrary cursor inside it */
 static const uint8_t *mk_input(size_t *n_out, size_t *off_out) {
@@ -89,4 +93,40 @@ void h_decode_int64(void) {
   carquet_status_t st = carquet_delta_decode_int64(data, n, values, num, consumed);
   CQV_CANARY("delta_decode_int64 returns");
   if (st == CARQUET_OK) CQV_CANARY("delta_decode_int64 can succeed");
+}
+
+void h_delta_length_decode(void) {
+  const uint8_t *data = nondet_ptr();
+  carquet_byte_array_t *values = nondet_ptr();
+  size_t *consumed = nondet_ptr();
+  size_t n = nondet_size_t();
+  int32_t num = nondet_i32();
+  carquet_status_t st = carquet_delta_length_decode(data, n, values, num, consumed);
+  CQV_CANARY("delta_length_decode returns");
+  if (st == CARQUET_OK) CQV_CANARY("delta_length_decode can succeed");
+  if (st == CARQUET_ERROR_DECODE) CQV_CANARY("delta_length_decode can reject");
+#ifdef CQV_OOM
+  if (st == CARQUET_ERROR_OUT_OF_MEMORY) CQV_CANARY("delta_length_decode can report allocation failure");
+#endif
+}
+
+#ifndef CQV_NMAX
+#define CQV_NMAX 3
+#endif
+/* bounded: at most CQV_NMAX strings (the two loops over the strings are unwound completely) */
+void h_delta_strings_decode(void) {
+  const uint8_t *data = nondet_ptr();
+  carquet_byte_array_t *values = nondet_ptr();
+  uint8_t *work = nondet_ptr();
+  size_t *consumed = nondet_ptr();
+  size_t n = nondet_size_t(), wn = nondet_size_t();
+  int32_t num = nondet_i32();
+  __CPROVER_assume(num <= CQV_NMAX);
+  carquet_status_t st = carquet_delta_strings_decode(data, n, values, num, work, wn, consumed);
+  CQV_CANARY("delta_strings_decode returns");
+  if (st == CARQUET_OK) CQV_CANARY("delta_strings_decode can succeed");
+  if (st == CARQUET_ERROR_DECODE) CQV_CANARY("delta_strings_decode can reject");
+#ifdef CQV_OOM
+  if (st == CARQUET_ERROR_OUT_OF_MEMORY && n == 0) CQV_CANARY("delta_strings_decode can report allocation failure");
+#endif
 }
